@@ -79,11 +79,11 @@ def elem : P Spec.Elem := do
     let id ← bytes; let sn ← opt bytes; let d ← opt bytes; let bl ← nat; let s ← insts
     pure (.pdu { id := id, shortName := sn, desc := d, byteLength := bl, signals := s })
   | "F" => do
-    let id ← bytes; let sn ← bytes; let bl ← nat; let p ← insts
+    let id ← bytes; let sn ← bytes; let d ← opt bytes; let bl ← nat; let p ← insts
     let x ← opt (do
       let mt ← opt bytes; let mi ← opt bytes; let app ← opt bytes; let ctx ← opt bytes
       pure ({ messageType := mt, messageInfo := mi, applicationId := app, contextId := ctx } : Spec.ExtDoc))
-    pure (.frame { id := id, shortName := sn, byteLength := bl, pdus := p, ext := x })
+    pure (.frame { id := id, shortName := sn, desc := d, byteLength := bl, pdus := p, ext := x })
   | "S" => do let id ← bytes; let c ← bytes; pure (.signal id c)
   | "C" => do let id ← bytes; let b ← bytes; pure (.coding id b)
   | t => throw s!"bad element {t}"
